@@ -258,6 +258,7 @@ func scriptStr(sc []Out) string {
 
 // Event is one listener call.
 type Event struct {
+	Seq    int // position in the execution's combined log of events and probe records
 	Tick   int
 	Policy int // index in the stack, -1 = executor
 	Name   string
@@ -320,6 +321,7 @@ type Env struct {
 	Quiet     bool // do not record events (race build: events are shared memory)
 
 	Recs       []*Rec
+	seq        int
 	appCount   []int
 	ProbeStats bool
 
@@ -336,6 +338,7 @@ type Env struct {
 	Reduce         bool // observation points are scheduling points on the env (needed with the state cache)
 	Tick           int  // number of observation points so far (a logical clock over observations)
 	OnEvent        func(e *Event)
+	CancelAtReturn map[*Rec]bool // hedge attempts: was the attempt's execution cancelled when the hedge returned
 }
 
 //go:norace
@@ -400,6 +403,8 @@ func (env *Env) ev(e Event) {
 	e.At = vrt.Elapsed()
 	e.Thread = vrt.ThreadID()
 	e.Tick = env.Tick
+	env.seq++
+	e.Seq = env.seq
 	env.Events = append(env.Events, e)
 	if env.OnEvent != nil {
 		env.OnEvent(&env.Events[len(env.Events)-1])
